@@ -137,6 +137,24 @@ CLAIMED["C07"] = dict(
     technique="TLC listener-machine model with include frames (include = inlining as a spec equality) + file-system replay under several working directories",
     design="7/C07")
 
+CLAIMED["C16"] = dict(
+    text="BBGraph defines wires (modes and measured registers), consecutive-on-wire edges, reachability and chains. TLC enumerates every program of up "
+         "to 3 operations over 3 wires (thorough also 4 over 2) from a 38-operation menu and proves on the model: edges point forward, j is reachable "
+         "from i iff an increasing chain of operations successively shares a wire, every topological order keeps the order on every wire. Each program "
+         "is built through the API and to_DiGraph's node set and labels, edge direction, acyclicity, REACHABILITY relation (not the edge list) and "
+         "topological orders are compared with the specification.",
+    note="Trusted: TLC, networkx (descendants, topological sorts). Exhaustive within the stated bound.",
+    technique="TLC exhaustive enumeration of programs with the graph specification + comparison of to_DiGraph's reachability relation",
+    design="7/C16")
+CLAIMED["C17"] = dict(
+    text="BBMatch defines matching declaratively (same labelled operations with the same order on every mode; affine arguments solved per parameter, "
+         "solutions must agree). TLC checks for 5 templates, 2 rational environments and EVERY reordering of the instance that keeps per-mode order "
+         "that Match returns the environment, and that every single structural edit is rejected. The harness replays each case on the real "
+         "match_template (plus random decimal environments, version/target edits) and compares results / TemplateError.",
+    note="Trusted: TLC, SymPy's solve. Decimal environments are harness-chosen; the spec statement is generic in the values.",
+    technique="TLC check of Match o Permute o Instantiate = id on the matching specification + replay into the real matcher",
+    design="7/C17")
+
 NOT_YET = {}
 
 
